@@ -156,7 +156,7 @@ T_RANGE = [
 
 def gen_world(rng, n_inputs=None, n_formulas=None, sheets=None, names=True,
               stale=True, userfuncs=False, extremes=False, max_depth=5,
-              range_names=False):
+              range_names=False, absolute=None, sparse=None):
     """Acyclic model: level-0 constants, then formulas over lower cells.
 
     Returns a JSON-able world:
@@ -165,6 +165,10 @@ def gen_world(rng, n_inputs=None, n_formulas=None, sheets=None, names=True,
       ranges_used {addr: [range address]}, range_names {name: range}
     """
     nsheets = sheets if sheets is not None else rng.choice([1, 1, 2, 2, 3])
+    if absolute is None:
+        absolute = rng.random() < 0.12
+    if sparse is None:
+        sparse = rng.random() < 0.15
     sheet_list = SHEETS[:nsheets]
     W = {s: rng.choice([1, 2, 2, 3, 4]) for s in sheet_list}
     count = {s: 0 for s in sheet_list}
@@ -205,6 +209,9 @@ def gen_world(rng, n_inputs=None, n_formulas=None, sheets=None, names=True,
 
     ni = n_inputs if n_inputs is not None else rng.randint(2, 6)
     nf = n_formulas if n_formulas is not None else rng.randint(1, 8)
+    if n_inputs is None and n_formulas is None and rng.random() < 0.04:
+        # now and then a larger model (size-triggered behaviour)
+        ni, nf = rng.randint(10, 40), rng.randint(10, 45)
     for _ in range(ni):
         a = place(rng.choice(sheet_list))
         cells[a] = enc(const())
@@ -220,11 +227,20 @@ def gen_world(rng, n_inputs=None, n_formulas=None, sheets=None, names=True,
 
     def ref(frm_sheet, a):
         s, c = a.split('!')
+        if absolute and rng.random() < 0.3:
+            # $A$1 spelling of a single-cell reference
+            i = 0
+            while c[i].isalpha():
+                i += 1
+            c = rng.choice([f'${c[:i]}${c[i:]}', f'{c[:i]}${c[i:]}',
+                            f'${c[:i]}{c[i:]}'])
+            a = f'{s}!{c}'
         if s == frm_sheet and not qualify_all and rng.random() < 0.85:
             return c
         return a
 
     copyable = []       # formulas whose text is sheet-relative throughout
+    soft = {}           # formula -> cells referenced with $ only
 
     ranges_used = {}
 
@@ -323,11 +339,17 @@ def gen_world(rng, n_inputs=None, n_formulas=None, sheets=None, names=True,
                     relative = False
                 else:
                     sub[key] = ref(sheet, val)
-                    if '!' in sub[key]:
+                    if '!' in sub[key] or '$' in sub[key]:
                         relative = False
                     else:
                         coords.append(sub[key])
-                used.append(val)
+                if '$' in sub[key]:
+                    # the library does not resolve $A$1 to A1 (it reads as
+                    # blank), so this is not a dependency in its semantics;
+                    # kept apart so that acyclicity still holds if it did
+                    soft.setdefault('pending', []).append(val)
+                else:
+                    used.append(val)
         if rng_ref:
             sub['R'] = rng_ref[0]
             used.extend(rng_ref[1])
@@ -339,7 +361,10 @@ def gen_world(rng, n_inputs=None, n_formulas=None, sheets=None, names=True,
         cells[fa] = '=' + tpl.format(**sub)
         dl = [u for u in dict.fromkeys(used)]
         deps[fa] = dl
-        level[fa] = 1 + max([level.get(u, 0) for u in dl] or [0])
+        sd = soft.pop('pending', [])
+        if sd:
+            soft[fa] = sd
+        level[fa] = 1 + max([level.get(u, 0) for u in dl + sd] or [0])
         if relative and coords:
             copyable.append({'sheet': sheet, 'text': cells[fa],
                              'coords': coords,
@@ -347,6 +372,30 @@ def gen_world(rng, n_inputs=None, n_formulas=None, sheets=None, names=True,
         if names and name_pool and rng.random() < 0.12:
             wnames[name_pool.pop()] = fa
         made += 1
+
+    if sparse:
+        # a long, mostly empty column with a formula over all of it: the
+        # MAX_EMPTY cut-off and blank placeholders come into play
+        s = rng.choice(sheet_list)
+        L = rng.randint(6, 16)
+        filled = sorted(rng.sample(range(L), rng.randint(1, 3)))
+        members = [f'{s}!H{r + 1}' for r in range(L)]
+        for r in filled:
+            a = members[r]
+            cells[a] = rng.choice([1, 2, 5, 10, 0.5, 7])
+            level[a] = 0
+            deps[a] = []
+            order.append(a)
+        reserved.update(m for m in members if m not in cells)
+        sheet = rng.choice(sheet_list)
+        fa = place(sheet)
+        rr = f'H1:H{L}' if sheet == s and not qualify_all else f'{s}!H1:H{L}'
+        cells[fa] = '=' + rng.choice(
+            ['SUM({R})', 'COUNT({R})', 'MAX({R})', 'SUM({R})*2',
+             'COUNTA({R})', 'AVERAGE({R})']).format(R=rr)
+        deps[fa] = list(members)
+        level[fa] = 1
+        ranges_used[fa] = [f'{s}!H1:H{L}']
 
     wstale = {}
     if stale and rng.random() < 0.5:
@@ -373,7 +422,8 @@ def gen_world(rng, n_inputs=None, n_formulas=None, sheets=None, names=True,
     return {'sheets': sheet_list, 'cells': cells, 'deps': deps,
             'level': level, 'names': wnames, 'stale': wstale,
             'ranges_used': ranges_used, 'range_names': rnames,
-            'order': order}
+            'order': order, 'soft_deps': {k: v for k, v in soft.items()
+                                         if k != 'pending'}}
 
 
 def world_model(world, cells=None, stale=False, build_code=True):
